@@ -2,6 +2,7 @@ import PestModel.Model.RefTrace
 import PestModel.Thm.C01
 import PestModel.Lemmas.Track
 import PestModel.Lemmas.TrackMain
+import PestModel.Lemmas.TracePos
 /-!
 # C08 — failure reports point at the furthest failure with sound expectations
 
@@ -185,5 +186,25 @@ theorem track_eq_spec : TrackEqSpecStmt := by
   have h2 : st.posAtt = (specReport calls).2.1 := congrArg (fun x => x.2.1) ha
   have h3 : st.negAtt = (specReport calls).2.2 := congrArg (fun x => x.2.2) ha
   exact ⟨h1, by rw [h2], by rw [h3]⟩
+
+/-- **The specified report points inside the text**: for every rule set, start rule and input the position of `specReport` is a
+UTF-8 boundary of the input (all rule calls of the reference semantics are made at boundaries, `RefTrace.ih_all`). -/
+theorem spec_position_inside (rules : List Rule) (extras : Bool) (uni : String → Option CharSet) (fuel : Nat)
+    (rule : String) (input : Str) :
+    PestModel.LineCol.isBoundary input (specReport (traceMeaning rules extras uni fuel rule input).2).1 = true :=
+  specReport_pos_boundary rules extras uni fuel rule input
+
+/-- **… and so does the VM's**: the error position of a failed parse is a UTF-8 boundary inside the input (so the error can be
+located and rendered, C10 `render_total_pos`). -/
+theorem error_position_inside (extras : Bool) (rs : List ORule) (hopt : PestModel.C01.Optimized extras rs)
+    (htag : PestModel.VmRef.TagRules extras rs) (hsize : rs.length ≤ 333333333)
+    (uni : String → Option CharSet) (memchr detail : Bool) (fuel : Nat) (name : String) (input : Str)
+    (st : PState) (h : PestModel.C01.vmParse rs uni memchr detail fuel name input = .err st) :
+    PestModel.LineCol.isBoundary input st.attemptPos = true := by
+  obtain ⟨f, calls, hc, hp, -, -⟩ := track_eq_spec extras rs hopt htag hsize uni memchr detail fuel name input st h
+  have := spec_position_inside (ofOptimizedRules rs) extras uni f name input
+  rw [hc] at this
+  rw [hp]
+  exact this
 
 end PestModel.C08
